@@ -15,7 +15,7 @@ META = dict(
                 'must equal, items and order, what rx.from_(values of that group).pipe(*P) emits on a plain observable. The group of each item is a solver variable (concretised by a comparison cascade), so every interleaving of <= G groups is a path. '
                 'A second form compares with_memory_store(P) on the root key with the plain run; a third spreads the pipeline over two chained with_memory_store stages; a fourth takes the keys from split / roll (successive lifetimes on one re-used key slot) and compares every lifetime with the plain run on its items. Programs: every dual-mode catalogue operator alone, seeded type-correct compositions to depth 3, tee_map with the three joins over depth-1/2 branches. '
                 'Float-valued operators (sum, mean, variance, stddev, formal.*) are run with z3 Real terms as items at native speed (z3x family): mux and plain output terms must be identical or provably equal - over the reals and, for the accumulating ones, over IEEE binary64 terms (bit-for-bit the same operation sequence per group, whatever the other groups did in between).',
-    bounds=dict(quick='N <= 3 items, G <= 2 groups, |v| <= 2^40; ~37 single operators, 30 seeded depth-2, 12 seeded depth-3, 9 tee_map programs; z3x: N <= 5, G <= 3',
+    bounds=dict(quick='N <= 3 items, G <= 2 groups, |v| <= 2^40; ~37 single operators, 30 seeded depth-2, 12 seeded depth-3, 9 tee_map programs; z3x: N <= 5, G <= 3; long-but-narrow: 10 and 17 groups live at once (concrete keys, 4 symbolic values) through 8 pipelines incl. tee_map zip / combine_latest / merge',
                 thorough='N <= 4, G <= 3 (N <= 5 for branch-free pipelines); 300 seeded programs; z3x: N <= 7, G <= 3'),
     outside='pipelines not enumerated; N, G above the bound; int64 overflow of typed state; the preconditions of the statement are assumed: first/last/reduce on an empty sequence (plain RxPY raises) is skipped, '
             'tee_map branches do not place completion-triggered operators after take/first, predicates return bool, failing assert_ is compared in single-group form only',
